@@ -162,6 +162,17 @@ static void starve(int d, int k)
 	step(1); step(1);                /* victim: cas succeeds at last, sends */
 }
 
+/* one sender and the receiver take turns for n messages: a history long enough to wrap any narrow counter */
+static void cycle(int d, int n)
+{
+	MSGLEN = 8;
+	reset(d, 1, n, 2 * n);
+	while (!vrt_finished(1) || !vrt_finished(0)) {
+		if (!vrt_finished(1)) step(1);
+		if (!vrt_finished(0)) step(0);
+	}
+}
+
 int main(void)
 {
 	drv_cmd_t c;
@@ -175,6 +186,8 @@ int main(void)
 			step(drv_arg(&c, 0));
 		else if (drv_is(&c, "Starve"))
 			starve(drv_arg(&c, 0), drv_arg(&c, 1));
+		else if (drv_is(&c, "Cycle"))
+			cycle(drv_arg(&c, 0), drv_arg(&c, 1));
 		else if (drv_is(&c, "Gen"))
 			gen(drv_arg(&c, 0), drv_arg(&c, 1), drv_arg(&c, 2), drv_arg(&c, 3), drv_arg(&c, 4), drv_arg(&c, 5));
 		else { fprintf(stderr, "mq_drv: unknown command %s\n", c.tok[0]); return 3; }
